@@ -71,6 +71,10 @@ def cases(tier, variants):
         for k in range(0, K):
             for rw in REWRITES:
                 yield dict(b, part="rw", k=k, rw=rw)
+        # the same redefinitions made through a mutable object passed in `args`
+        for k in (1, 3, 5):
+            for rw in ("scale5", "w0.2"):
+                yield dict(b, part="rw", k=k, rw=rw, via_args=1)
         # history letter: the run is interrupted after j iterations and RESTARTED from
         # that state with an update function whose first (pre-loop) call redefines the
         # objective and rewrites the restored gradients
@@ -243,8 +247,18 @@ def run(case):
     rec = {}
     glog = {}
 
-    def jac_logged(x):
-        v = jac(x)
+    # letter: the objective's parameters live in a mutable object handed over through
+    # `args`; the update function changes that object (instead of closure variables)
+    P = dict(sc=1.0, w=1.0)
+    via_args = bool(case.get("via_args"))
+
+    def fun_run(x, Pa=None):
+        if Pa is None:
+            return fun(x)
+        return Pa["sc"] * (p.f(x) + Pa["w"] * f2(x))
+
+    def jac_logged(x, Pa=None):
+        v = jac(x) if Pa is None else Pa["sc"] * (p.g(x) + Pa["w"] * g2(x))
         glog[np.asarray(x, float).tobytes()] = np.array(v, copy=True)
         return v
 
@@ -256,9 +270,9 @@ def run(case):
         if part == "rw":
             rwn = case["rw"]
             if rwn.startswith("scale"):
-                sc[0] = float(rwn[5:])
+                sc[0] = P["sc"] = float(rwn[5:])
             else:
-                w[0] = float(rwn[1:])
+                w[0] = P["w"] = float(rwn[1:])
             Gl = [jac(a) for a in Xl]
             newf, newg = fun(x), jac(x)
             newf_old = fun(Xl[-1]) if Xl else newf
@@ -296,9 +310,10 @@ def run(case):
             if tgt is None:
                 return dict(viol=[], outcome="no_target_slot", stats={"skipped": 1})
     try:
-        res = minimize_lbfgsb(x0=p.x0.copy(), fun=fun, jac=jac_logged, ftol=-10.0,
+        res = minimize_lbfgsb(x0=p.x0.copy(), fun=fun_run, jac=jac_logged, ftol=-10.0,
                               ftarget=tgt, update_fun_def=upd,
-                              callback=lambda x, s: states.append(copy.deepcopy(s)) and False, **kw)
+                              callback=lambda x, s: states.append(copy.deepcopy(s)) and False,
+                              **dict(kw, **({"args": (P,)} if via_args else {})))
     except core.CaseTimeout:
         raise
     except Exception as e:
